@@ -108,11 +108,13 @@ def c17 (op : String) (j : Json) : Option (R Json) :=
       | some x =>
         let xa ← c17XaOfJson x
         -- how far each geometric coordinate is from the spacing threshold: the largest
-        -- |d - mean| / (atol + rtol·|mean|) over the axis (≤ 1 passes), for the comparator
+        -- |d - mean| / (rtol·|mean|) over the axis (≤ 1 passes), for the comparator
         let margin := (geo xa).map fun a =>
           if a.values.length ≤ 1 then (0 : Rat)
+          else if meanDiff a.values = 0 then
+            (if (diffs a.values).all (· == 0) then 0 else 1000000)
           else listMax ((diffs a.values).map fun d =>
-            absR (d - meanDiff a.values) / (1/100000000 + 1/100000 * absR (meanDiff a.values)))
+            absR (d - meanDiff a.values) / (1/100000 * absR (meanDiff a.values)))
         pure ((resJ c17FldToJson (fromXarray (.dataArray xa))).setObjVal! "margin" (ratsJ margin))
   | _ => none
 
